@@ -34,6 +34,9 @@ func main() {
 		&lib.Prop{ID: "C09", Part: "shared", Level: "exploration", NCases: n(150, 4000), Run: c09Shared,
 			Assumptions: []string{"a source database whose object is dropped BEFORE its successors are open is a dead process (pinned, no cleanup runs); in two thirds of the cases the source object is dropped in process once its successors are open (an in-place redeploy keeps the old database referenced until dkv.Open returned) and collected", "ownership policy of the harness mirrors the operator partition: exclusive unless a live peer's NeedsTable says true"},
 			Rule:        "2..3 databases restored from one checkpoint of a source database (state in SST files), each owning a hash share of the keys and sharing the checkpoint's tables; they write, compact the shared tables away, take job checkpoints (same id everywhere), receive retention updates that drop the shared checkpoint, with forced GC rounds; after every such step the reference set of ALL live databases is checked as in part single and every database's owned rows are compared with its model; every table of every checkpoint handle a database was restored from must be reported by its NeedsTable; scale-in phase: the databases become dead processes and two successors are restored from two of their checkpoints each (other-process views of the storage); non-trivial = >3 reference checks; distinct by (options, n, ops) hash"},
+		&lib.Prop{ID: "C09", Part: "late-answer", Level: "exploration", NCases: n(30, 600), Run: c09LateAnswer,
+			Assumptions: []string{"forced GC rounds: a cleanup that has not run yet can only hide a violation, never fabricate one (a case in which no cleanup asked is counted as trivial)"},
+			Rule:        "a database writes tables and takes checkpoint 1; a second database is opened from it with neighbours that answer slowly; both objects are dropped one after the other and collected until the second one's table cleanup waits for the neighbours' answer; a third database of the same process opens the still retained checkpoint; then the answer 'nobody needs the table' arrives. Every file of checkpoint 1 must still exist, the third database and a fourth one opened afterwards read every key; non-trivial = a cleanup was waiting for its answer when the third database was opened; distinct by (fs, memtable, puts)"},
 		&lib.Prop{ID: "C09", Part: "kf-old-instance-gc", Level: "exploration", NCases: n(1, 1), Run: kfOldInstanceGC,
 			Rule: "regression part of the repaired finding old-instance-gc (fix 7f5fd67): in-place redeploy (new database opened from the old one's checkpoint in the same process, old object dropped, GC) — the dropped instance's table cleanups must not delete files the new database uses"},
 	)
